@@ -103,14 +103,17 @@ fn compile_here(src: &str) -> Outcome {
                 None => Err(Error::FileNotFound(p.to_path_buf())),
             }
         };
+        // C07: a rejection is a non-empty list of errors, each of which renders to text (a panic while
+        // rendering is caught below like any other panic)
+        let render = |errs: &Vec<Error>| { for e in errs.iter() { let _ = format!("{}", e); } };
         let tree = match sylt_parser::tree(&path, reader, true) {
             Ok(t) => t,
-            Err(_) => return Outcome::Reject,
+            Err(errs) => { render(&errs); return Outcome::Reject },
         };
         let mut out: Vec<u8> = Vec::new();
         match sylt_compiler::compile(&mut out, tree, None) {
             Ok(()) => Outcome::Accept,
-            Err(_) => Outcome::Reject,
+            Err(errs) => { render(&errs); Outcome::Reject },
         }
     });
     match r {
